@@ -46,7 +46,23 @@ def _pure_path(e):
         return _pure_path(e.value)
     if isinstance(e, ast.Subscript):
         return _pure_path(e.value) and _pure_path(e.slice)
+    # value-only expressions over such paths: conversions by the pure builtins, arithmetic / comparison / boolean operators
+    if isinstance(e, ast.Call) and isinstance(e.func, ast.Name) and e.func.id in _PURE_BUILTINS and not e.keywords:
+        return all(_pure_path(a) for a in e.args)
+    if isinstance(e, ast.BinOp):
+        return _pure_path(e.left) and _pure_path(e.right)
+    if isinstance(e, ast.UnaryOp):
+        return _pure_path(e.operand)
+    if isinstance(e, ast.Compare):
+        return _pure_path(e.left) and all(_pure_path(c) for c in e.comparators)
+    if isinstance(e, ast.BoolOp):
+        return all(_pure_path(v) for v in e.values)
+    if isinstance(e, ast.Slice):
+        return all(x is None or _pure_path(x) for x in (e.lower, e.upper, e.step))
     return False
+
+
+_PURE_BUILTINS = {"str", "len", "int", "float", "bool", "abs", "repr", "tuple", "min", "max"}
 
 
 def _attr_stores(fn):
